@@ -169,6 +169,18 @@ def _job(args):
                     hist_e, names_e = ['EXC:' + type(e).__name__], None
                 if hist_e[-1] != want_simple or (isinstance(names_e, list) and sorted(rec['formats']) != names_e):
                     probs.append(('decision-with-expected-outside-allowed:' + exp, 4096, [hist_e[-1], names_e], want))
+        if not allowed and len(rec['formats']) > 1:
+            # several formats at once: naming one of them as the expected one does not make the others go away
+            for exp in sorted(rec['formats'])[:2]:
+                for sz in (512, 4096):
+                    try:
+                        hist_e, names_e = decide_real(fi, data, sz, None, expected=exp)
+                    except fi.ImageFormatError:
+                        hist_e, names_e = ['ImageFormatError'], None      # cut off: the expected inspector saw no match
+                    except Exception as e:
+                        hist_e, names_e = ['EXC:' + type(e).__name__], None
+                    if hist_e[-1] != want_simple:
+                        probs.append(('decision-with-one-of-the-formats-expected:' + exp, sz, [hist_e[-1], names_e], want))
         for sz in sizes:
             hist, names = decide_real(fi, data, sz, allowed)
             final = hist[-1]
